@@ -32,6 +32,11 @@ type t1Outcome struct {
 	ret      bool // returned without error
 	why      string
 	effects  []ssaEffect
+	// the bytes still to be decoded, the operand stack and the stack of return frames as they are
+	// when the pass goes on to the next command
+	code      sv
+	stackVals []sv
+	frames    []sv
 }
 
 type t1Machine struct {
@@ -44,6 +49,12 @@ type t1Machine struct {
 	flexFirst bool
 	// inlineHelpers: evaluate the path helpers in place instead of recording their calls
 	inlineHelpers bool
+	// subrs: the subroutines of the font (what a load of a [][]byte delivers); nil = unknown
+	subrs [][]byte
+	// nframes: the number of return frames already on the call stack when the pass begins
+	// (only if framesSet; otherwise one frame)
+	framesSet bool
+	nframes   int
 }
 
 // closureKinds classifies the closures of the decoder by what they emit.
@@ -126,6 +137,19 @@ func (c *Ctx) t1Machine() *t1Machine {
 
 func fl(x float64) sv { return sv{k: svFloat, f: x} }
 
+func isByteSliceSlice(t types.Type) bool {
+	sl, ok := t.Underlying().(*types.Slice)
+	if !ok {
+		return false
+	}
+	in, ok := sl.Elem().Underlying().(*types.Slice)
+	if !ok {
+		return false
+	}
+	bt, ok := in.Elem().Underlying().(*types.Basic)
+	return ok && bt.Kind() == types.Uint8
+}
+
 // othersubr evaluates `args… n idx callothersubr`.
 func (m *t1Machine) othersubr(idx int, args, ps, flex []sv) t1Outcome {
 	code := m.c.constInt("type1", "t1callothersubr")
@@ -157,6 +181,13 @@ func (m *t1Machine) runX(code []byte, stack, ps, flex []sv, flags map[string]boo
 		a := addr.s
 		if strings.HasPrefix(a, "global:") {
 			return symV(a[strings.LastIndex(a, ".")+1:]), true
+		}
+		if m.subrs != nil && isByteSliceSlice(ld.Type()) {
+			var el []sv
+			for _, sb := range m.subrs {
+				el = append(el, sv{k: svString, s: string(sb)})
+			}
+			return ev.newList(el), true
 		}
 		return sv{}, false
 	}
@@ -216,7 +247,7 @@ func (m *t1Machine) runX(code []byte, stack, ps, flex []sv, flags map[string]boo
 		return false
 	}
 	stackCell := ""
-	var psPhi, flexPhi *ssa.Phi
+	var psPhi, flexPhi, codePhi, framesPhi *ssa.Phi
 	floatLists := 0
 	for _, ins := range m.inner.Instrs {
 		phi, ok := ins.(*ssa.Phi)
@@ -229,6 +260,7 @@ func (m *t1Machine) runX(code []byte, stack, ps, flex []sv, flags map[string]boo
 				switch bt.Kind() {
 				case types.Uint8:
 					fr.vals[phi] = sv{k: svString, s: string(code)}
+					codePhi = phi
 				case types.Float64:
 					// two float lists are carried by the loop: the PostScript stack and the
 					// flex buffer; they are told apart below by what othersubr 2 appends to
@@ -240,7 +272,17 @@ func (m *t1Machine) runX(code []byte, stack, ps, flex []sv, flags map[string]boo
 					}
 				}
 			} else {
-				fr.vals[phi] = ev.newList([]sv{symV("outer")})
+				frames := []sv{symV("outer")}
+				if m.framesSet {
+					frames = nil
+					for i := 0; i < m.nframes; i++ {
+						frames = append(frames, symV(fmt.Sprintf("outer%d", i)))
+					}
+				}
+				fr.vals[phi] = ev.newList(frames)
+				if isByteSliceSlice(phi.Type()) {
+					framesPhi = phi
+				}
 			}
 		case *types.Basic:
 			if t.Info()&types.IsBoolean != 0 {
@@ -313,8 +355,11 @@ func (m *t1Machine) runX(code []byte, stack, ps, flex []sv, flags map[string]boo
 	if stackCell != "" {
 		v := ev.mem[stackCell]
 		out.stack = ev.render(v)
-		if el, ok := ev.elems(v); ok && len(el) == 0 {
-			out.cleared = true
+		if el, ok := ev.elems(v); ok {
+			out.stackVals = append([]sv{}, el...)
+			if len(el) == 0 {
+				out.cleared = true
+			}
 		}
 	}
 	// the lists carried by the loop, as they are when the pass goes on to the next command
@@ -328,6 +373,14 @@ func (m *t1Machine) runX(code []byte, stack, ps, flex []sv, flags map[string]boo
 			}
 			if flexPhi != nil {
 				out.flex = ev.render(ev.val(fr, flexPhi.Edges[i]))
+			}
+			if codePhi != nil {
+				out.code = ev.val(fr, codePhi.Edges[i])
+			}
+			if framesPhi != nil {
+				if el, ok := ev.elems(ev.val(fr, framesPhi.Edges[i])); ok {
+					out.frames = append([]sv{}, el...)
+				}
 			}
 		}
 	}
